@@ -324,7 +324,12 @@ def u_cat_build_trees(ctx, binned, repeated=False):
         iter_unordered = staticmethod(iu_stub)
     cat = C.Catalog.__new__(C.Catalog)
     cat.cache_directory = "/cache"
-    patches = SSeq(n, lambda t: ("PATCH", t))
+    class PatchTok:
+        """stand-in for a patch (a fixture class: code that looks inside a patch needs a contract for what it reads there)"""
+
+        def __init__(self, t):
+            self.t = t
+    patches = SSeq(n, lambda t: PatchTok(t))
 
     class Vals:
         pass
